@@ -633,7 +633,7 @@ async fn step_inner(w: &mut World, l: &[Tok], start: SystemTime) -> Vec<Vec<Tok>
                 }
             }
         }
-        50..=55 => crate::fam_viss::step_viss(w, op, &mut c, start).await,
+        50..=56 => crate::fam_viss::step_viss(w, op, &mut c, start).await,
         60..=63 => crate::fam_prov::step_prov(w, op, &mut c).await,
         41 => {
             let Some(h) = c.next() else { return bad };
